@@ -1,0 +1,252 @@
+//! Verification hooks. This module only exists when the crate is built with
+//! `--cfg ikatson_librqbit_utp_verif`; without that flag none of this is compiled
+//! and the crate is token-for-token what it was.
+//!
+//! What is here:
+//! - re-exports of crate-private items an external harness needs in order to plug in a
+//!   virtual clock / deterministic randomness, and to drive the pure components directly;
+//! - an event sink (thread-local first, then process-global) that the one-line hooks in
+//!   `stream_dispatch.rs` and `socket.rs` report to;
+//! - plain-data snapshot types. Snapshots are taken between two polls of a connection
+//!   task (the connection object has a single owner), never mid-update.
+use std::{
+    cell::RefCell,
+    net::SocketAddr,
+    sync::atomic::{AtomicBool, AtomicU64, Ordering},
+    time::{Duration, Instant},
+};
+
+pub use crate::congestion::{CongestionController, cubic::Cubic};
+pub use crate::constants::{
+    ACK_DELAY, IMMEDIATE_ACK_EVERY_RMSS, SACK_DEPTH, SACK_DUP_THRESH, SYNACK_RESEND_INTERNAL,
+    WRAP_TOLERANCE,
+};
+pub use crate::message::UtpMessage;
+pub use crate::recovery::Recovery;
+pub use crate::rtte::RttEstimator;
+pub use crate::seq_nr::SeqNr;
+pub use crate::stream_rx::{AssemblerAddRemoveResult, OutOfOrderQueue, UserRx};
+pub use crate::stream_tx::UserTx;
+pub use crate::stream_tx_segments::{OnAckResult, Segments};
+pub use crate::traits::{DefaultUtpEnvironment, UtpEnvironment};
+pub use crate::utils::{prepare_2_ioslices, seq_nr_offset};
+
+static NEXT_UID: AtomicU64 = AtomicU64::new(1);
+
+/// Identity of one connection object (one `VirtualSocket`).
+#[derive(Clone, Debug, PartialEq, Eq, Hash)]
+pub struct VsockId {
+    pub uid: u64,
+    pub local: SocketAddr,
+    pub remote: SocketAddr,
+    pub conn_id_recv: u16,
+    pub conn_id_send: u16,
+    pub incoming: bool,
+}
+
+impl VsockId {
+    pub(crate) fn new(
+        local: SocketAddr,
+        remote: SocketAddr,
+        conn_id_recv: u16,
+        conn_id_send: u16,
+        incoming: bool,
+    ) -> Self {
+        Self {
+            uid: NEXT_UID.fetch_add(1, Ordering::Relaxed),
+            local,
+            remote,
+            conn_id_recv,
+            conn_id_send,
+            incoming,
+        }
+    }
+}
+
+#[derive(Clone, Debug, Default)]
+pub struct SegSnapshot {
+    pub payload_size: usize,
+    pub send_count: usize,
+    pub is_delivered: bool,
+    pub is_mtu_probe: bool,
+}
+
+#[derive(Clone, Debug, Default)]
+pub struct SegmentsSnapshot {
+    pub snd_una: u16,
+    pub count: usize,
+    pub len_bytes: usize,
+    pub offset: u64,
+    pub removed_offset: u64,
+    pub sack_depth: usize,
+    pub segs: Vec<SegSnapshot>,
+}
+
+#[derive(Clone, Debug, Default)]
+pub struct UserRxSnapshot {
+    pub queue_len_bytes: usize,
+    pub queue_capacity: usize,
+    pub queue_items: usize,
+    pub reader_dropped: bool,
+    pub vsock_closed: bool,
+    pub dispatcher_waker_set: bool,
+    pub reader_waker_set: bool,
+    pub ooq_len: usize,
+    pub ooq_len_bytes: usize,
+    pub ooq_filled_front: usize,
+    pub ooq_capacity: usize,
+    /// (slot index, payload length; `usize::MAX` marks the EOF marker) of every occupied slot.
+    pub ooq_occupied: Vec<(usize, usize)>,
+    pub max_incoming_payload: usize,
+    pub last_remaining_rx_window: usize,
+}
+
+#[derive(Clone, Debug, Default)]
+pub struct UserTxSnapshot {
+    pub ring_len: usize,
+    pub ring_capacity: usize,
+    pub vsock_closed: bool,
+    pub writer_dropped: bool,
+    pub writer_shutdown: bool,
+    pub dispatcher_waker_set: bool,
+    pub writer_waker_set: bool,
+}
+
+#[derive(Clone, Debug, Default)]
+pub struct TimersSnapshot {
+    pub retransmit: Option<Instant>,
+    pub ack_delay: Option<Instant>,
+    pub remote_inactivity: Option<Instant>,
+    pub recovery_pipe_expiry: Option<Instant>,
+    pub syn_ack_resend: Option<Instant>,
+}
+
+#[derive(Clone, Debug, Default)]
+pub struct VsockSnapshot {
+    pub state: &'static str,
+    pub our_fin: Option<u16>,
+    pub remote_fin: Option<u16>,
+    pub seq_nr: u16,
+    pub last_sent_seq_nr: u16,
+    pub last_consumed_remote_seq_nr: u16,
+    pub last_sent_ack_nr: u16,
+    pub last_sent_window: u32,
+    pub last_remote_window: u32,
+    pub advertised_window_now: u32,
+    pub consumed_but_unacked_bytes: usize,
+    pub rto_retransmissions: usize,
+    pub inbound_channel_len: usize,
+    pub min_ss: u16,
+    pub max_ss: u16,
+    pub rto: Duration,
+    pub rtt: Duration,
+    pub cwnd: usize,
+    pub ssthresh: usize,
+    pub recovery: &'static str,
+    pub flight_size: usize,
+    pub unsegmented_data: usize,
+    pub transport_pending: bool,
+    pub nagle: bool,
+    pub now: Option<Instant>,
+    pub timers: TimersSnapshot,
+    pub rx: UserRxSnapshot,
+    pub tx: UserTxSnapshot,
+    pub segments: SegmentsSnapshot,
+}
+
+#[derive(Clone, Debug)]
+pub enum VerifEvent {
+    /// A connection object was created (not necessarily started yet).
+    VsockCreated { id: VsockId },
+    /// State at the start of a poll of the connection task (= what the previous poll left,
+    /// plus whatever the user halves did since).
+    PollStart { id: VsockId, snap: VsockSnapshot },
+    /// State at the end of that poll. `finished` is `Some(None)` for a clean end,
+    /// `Some(Some(err))` for an error end, `None` when the task stays alive.
+    PollEnd {
+        id: VsockId,
+        snap: VsockSnapshot,
+        finished: Option<Option<String>>,
+    },
+    /// `just_before_death` ran with this error (None = clean close).
+    Death { id: VsockId, error: Option<String> },
+    /// The connection object was dropped (task ended, was cancelled, or was never started).
+    VsockDropped { id: VsockId, snap: VsockSnapshot },
+    /// An in-window ST_DATA was offered to the reassembler.
+    RxData {
+        id: VsockId,
+        seq_nr: u16,
+        len: usize,
+        /// "consumed" (stored; `advanced` sequence numbers became contiguous),
+        /// "unavailable" (not stored: beyond window / full), "already_present".
+        outcome: &'static str,
+        advanced: usize,
+    },
+    /// A new segment was cut from the TX ring.
+    Segmented {
+        id: VsockId,
+        payload_size: usize,
+        is_mtu_probe: bool,
+        segment_size: usize,
+        mss: usize,
+        window_limited: bool,
+        data_in_flight: bool,
+    },
+    /// State of the socket dispatcher's tables at the start of one loop iteration.
+    SocketTables {
+        local: SocketAddr,
+        streams: Vec<(SocketAddr, u16)>,
+        limit: usize,
+        connecting: usize,
+        cached_syns: usize,
+        acceptor_parked: bool,
+    },
+}
+
+type ThreadSink = Box<dyn FnMut(&VerifEvent)>;
+type GlobalSink = Box<dyn Fn(&VerifEvent) + Send + Sync>;
+
+thread_local! {
+    static THREAD_SINK: RefCell<Option<ThreadSink>> = const { RefCell::new(None) };
+}
+static GLOBAL_SINK_SET: AtomicBool = AtomicBool::new(false);
+static GLOBAL_SINK: parking_lot::RwLock<Option<GlobalSink>> = parking_lot::RwLock::new(None);
+
+/// Install (or remove) the sink for events emitted on the current thread.
+pub fn set_thread_sink(sink: Option<ThreadSink>) {
+    THREAD_SINK.with(|s| *s.borrow_mut() = sink);
+}
+
+/// Install (or remove) the sink used by threads that have no thread sink.
+pub fn set_global_sink(sink: Option<GlobalSink>) {
+    let mut g = GLOBAL_SINK.write();
+    GLOBAL_SINK_SET.store(sink.is_some(), Ordering::SeqCst);
+    *g = sink;
+}
+
+/// Report an event. The closure only runs if somebody listens.
+pub(crate) fn emit(make: impl FnOnce() -> VerifEvent) {
+    let mut make = Some(make);
+    let handled = THREAD_SINK
+        .try_with(|s| {
+            // A sink that (indirectly) triggers another event is not re-entered.
+            if let Ok(mut g) = s.try_borrow_mut() {
+                if let Some(sink) = g.as_mut() {
+                    sink(&(make.take().unwrap())());
+                    return true;
+                }
+            }
+            false
+        })
+        .unwrap_or(false);
+    if handled {
+        return;
+    }
+    if GLOBAL_SINK_SET.load(Ordering::Relaxed) {
+        if let Some(sink) = GLOBAL_SINK.read().as_ref() {
+            if let Some(make) = make.take() {
+                sink(&make());
+            }
+        }
+    }
+}
